@@ -402,10 +402,14 @@ func fetchRace(withB bool, disk bool) func(x *vrt.Exec) {
 		}
 		// reference: bytes of every sequence number in a fetch-free run of the same frames
 		ref := map[int][]byte{}
+		refDur := map[int]float64{}
 		{
 			p := newPipeline(1, dir2)
 			for _, f := range frames {
 				p.write(f)
+				for s, d := range p.pl.VerifDurations() {
+					refDur[s] = d
+				}
 				for _, s := range p.pl.VerifListed() {
 					if _, ok := ref[s]; !ok {
 						r, _, _ := p.pl.Segment(s)
@@ -437,10 +441,25 @@ func fetchRace(withB bool, disk bool) func(x *vrt.Exec) {
 			}
 			vrt.Yield("fetch.hold-playlist") // the HTTP handler writes the bytes to the socket later
 			got := string(text)
-			_, _, ents, perr := parseM3u8(got)
+			target, mediaSeq, ents, perr := parseM3u8(got)
 			if perr != nil {
 				x.Failf("fetch playlist-corrupted", "caller %s: %v", tok, perr)
 				return
+			}
+			// the served playlist is one consistent snapshot, whatever rolls over meanwhile
+			if len(ents) > 0 && mediaSeq != ents[0].seq {
+				x.Failf("fetch media-sequence-is-not-first-listed", "caller %s: MEDIA-SEQUENCE %d but the first listed segment is %d", tok, mediaSeq, ents[0].seq)
+			}
+			for i, e := range ents {
+				if i > 0 && e.seq != ents[i-1].seq+1 {
+					x.Failf("fetch listed-sequence-not-consecutive", "caller %s: listed %d after %d", tok, e.seq, ents[i-1].seq)
+				}
+				if float64(target) < e.dur {
+					x.Failf("fetch target-duration-below-listed", "caller %s: TARGETDURATION %d < EXTINF %.3f of seq %d", tok, target, e.dur, e.seq)
+				}
+				if d, ok := refDur[e.seq]; ok && fmt.Sprintf("%.3f", d) != fmt.Sprintf("%.3f", e.dur) {
+					x.Failf("fetch listed-duration-of-another-segment", "caller %s: seq %d listed with %.3f s, produced with %.3f s", tok, e.seq, e.dur, d)
+				}
 			}
 			for _, e := range ents {
 				if e.tok != tok {
